@@ -2,6 +2,7 @@ package core
 
 import (
 	stdErrors "errors"
+	"fmt"
 
 	schema "github.com/jsightapi/jsight-schema-core"
 	"github.com/jsightapi/jsight-schema-core/kit"
@@ -14,16 +15,26 @@ import (
 )
 
 func (core *JApiCore) collectUserTypes() *jerr.JApiError {
-	core.collectRawUserTypes()
+	if je := core.collectRawUserTypes(); je != nil {
+		return je
+	}
 	return core.compileUserTypes()
 }
 
-func (core *JApiCore) collectRawUserTypes() {
+func (core *JApiCore) collectRawUserTypes() *jerr.JApiError {
 	for _, d := range core.directivesWithPastes {
 		if d.Type() == directive.Type {
+			// This error has to be found here: the second declaration would replace
+			// the first one in the compilation of the user types, which leads to a
+			// panic when their notations differ.
+			name := d.NamedParameter("Name")
+			if core.rawUserTypes.Has(name) {
+				return d.KeywordError(fmt.Sprintf(jerr.DuplicateNames, name))
+			}
 			core.AddRawUserType(d)
 		}
 	}
+	return nil
 }
 
 func (core *JApiCore) compileUserTypes() *jerr.JApiError {
